@@ -13,7 +13,7 @@ use rtcm_rs::prelude::*;
 use serde_json::{json, Value};
 
 fn short(m: &Message) -> String {
-    let s = format!("{:?}", m);
+    let s = vtree::debug_of(m);
     if s.len() > 500 {
         let mut e = 500;
         while !s.is_char_boundary(e) {
